@@ -240,6 +240,7 @@ def validate_headers(
 ) -> None:
     after_pseudo_headers = False
     authority: Optional[bytes] = None
+    declared_content_length: Optional[int] = None
     path: Optional[bytes] = None
     scheme: Optional[bytes] = None
     seen_pseudo_headers: Set[bytes] = set()
@@ -277,6 +278,12 @@ def validate_headers(
                         raise ValueError
                 except ValueError:
                     raise MessageError("content-length is not a non-negative integer")
+                if (
+                    declared_content_length is not None
+                    and declared_content_length != content_length
+                ):
+                    raise MessageError("content-length is included twice")
+                declared_content_length = content_length
                 if stream:
                     stream.expected_content_length = content_length
             elif key == b"transfer-encoding" and value != b"trailers":
